@@ -81,3 +81,54 @@ func VC15_ImageReaderFault() {
 	}
 	vsym.Reach("end")
 }
+
+// vArmedReaderAt fails (symbolically) at any ReadAt call once armed.
+type vArmedReaderAt struct {
+	r      *bytes.Reader
+	armed  bool
+	nfault int
+}
+
+func (f *vArmedReaderAt) ReadAt(p []byte, off int64) (int, error) {
+	if f.armed && vsym.Bool("fault.readat") {
+		f.nfault++
+		return 0, io.ErrClosedPipe
+	}
+	return f.r.ReadAt(p, off)
+}
+
+// VC15_VerifyReaderFault: an image carrying two signatures (the second one by the verifying key);
+// the image reader may fail at any ReadAt call Verify and Hash issue: success is never reported,
+// and Hash returns no digest.
+func VC15_VerifyReaderFault() {
+	img := vsym.Fixture("authenticode/testdata/test.pecoff")
+	k1, k2 := vsym.Signer("k1"), vsym.Signer("k2")
+	s1, s2 := vsym.BytesN("serial1", 2), vsym.BytesN("serial2", 2)
+	vsym.Assume(vsym.And(s1[0] != 0, s2[0] != 0))
+	cert1, cert2 := vsym.Cert(k1, s1), vsym.Cert(k2, s2)
+	p, err := Parse(bytes.NewReader(img))
+	vsym.Assert(err == nil, "fixture parses")
+	_, e1 := p.Sign(k1, cert1)
+	_, e2 := p.Sign(k2, cert2)
+	vsym.Assert(e1 == nil && e2 == nil, "signing succeeds")
+	fr := &vArmedReaderAt{r: bytes.NewReader(p.Bytes())}
+	q, err := Parse(fr)
+	vsym.Assert(err == nil, "doubly signed image parses")
+	fr.armed = true
+	ok, verr := q.Verify(cert2)
+	if fr.nfault > 0 {
+		vsym.Assert(!ok, "success is never reported when the image reader failed")
+		vsym.Assert(verr != nil, "a reader failure during verification is reported as an error")
+		vsym.Reach("verify-faulted")
+	} else {
+		vsym.Assert(ok, "without faults the second signer verifies")
+		vsym.Reach("verify-clean")
+	}
+	n0 := fr.nfault
+	d := q.Hash(crypto.SHA256)
+	if fr.nfault > n0 {
+		vsym.Assert(d == nil, "no digest is returned when the image reader failed")
+		vsym.Reach("hash-faulted")
+	}
+	vsym.Reach("end")
+}
